@@ -57,6 +57,9 @@ TYPE_NAMES = ["User", "Profile", "Settings", "Item", "Order", "Address", "Status
 # names that overlap with std type names used in field types (HashMap, Option, HashSet, BTreeMap, String, Result, Vec, Channel)
 STD_LIKE = ["Map", "Set", "Opt", "Hash", "Tree", "Str", "Res", "Vec2", "Box2", "Chan", "Tup", "Has", "Ion"]
 BASES = ["Order", "User", "Node", "T1", "Item", "A", "Ab", "Job", "Log", "Cfg"]
+# project type names that collide with std / tauri / TypeScript names
+NAME_CLASH = ["Path", "PathBuf", "OsString", "OsStr", "Duration", "Uuid", "Value", "Date", "Error", "Map", "Set", "Record", "Promise",
+              "Array", "Channel", "State", "Window", "Number", "Boolean", "Object", "Char", "Str", "Bool", "Unit", "Tuple", "Box", "Arc"]
 SUFFIXES = ["Item", "Kind", "List", "Profile", "Data", "Entry", "2", "0", "Ref", "Id", "X", "s"]
 PREFIXES = ["Sub", "My", "New", "Re", "X"]
 FIELD_NAMES = ["id", "name", "user_id", "created_at", "value", "items", "is_active", "x1", "http_code", "a", "data_2d",
@@ -187,7 +190,9 @@ def build(spec):
         for c in fns:
             params, ret, body = [], None, []
             need_app = False
-            for n, (how, j, ctx) in enumerate(c["roots"]):
+            for n, root in enumerate(c["roots"]):
+                how, j, ctx = root[:3]
+                ename = root[3] if len(root) > 3 else "evt-%s-%d" % (c["name"], n)      # several sites may share a name
                 tj = P(types[j]["name"])
                 if how == "param":
                     params.append({"name": "arg%d" % n, "ty": CONTEXTS[ctx](tj)})
@@ -205,16 +210,16 @@ def build(spec):
                     if ctx == "untyped":           # let v = call(..); emit(.., v): no type can be read off the syntax
                         v = c.get("var", "payload")
                         body.append("let %s = compute_value(%d);" % (v, n))
-                        body.append({"emit": "evt-%s-%d" % (c["name"], n), "recv": "app", "payload": v if n % 2 else "&" + v,
+                        body.append({"emit": ename, "recv": "app", "payload": v if n % 2 else "&" + v,
                                      "c07": ["var", v]})
                     elif ctx == "literal":
-                        body.append({"emit": "evt-%s-%d" % (c["name"], n), "recv": "app",
+                        body.append({"emit": ename, "recv": "app",
                                      "payload": "%s { ..Default::default() }" % types[j]["name"], "c07": ["lit", types[j]["name"]]})
                     else:
                         v = c.get("var") or "payload%d" % n
                         params.append({"name": v, "ty": CONTEXTS[ctx](tj)})
                         expr = {0: v, 1: "&" + v, 2: v + ".clone()"}[n % 3]
-                        body.append({"emit": "evt-%s-%d" % (c["name"], n), "recv": "app", "payload": expr, "c07": ["var", v]})
+                        body.append({"emit": ename, "recv": "app", "payload": expr, "c07": ["var", v]})
             if need_app or c.get("app"):
                 params.insert(0, {"name": "app", "ty": P("AppHandle", segs=["tauri"])})
             fitems = items[file_name(c.get("file", 0))]
@@ -284,7 +289,8 @@ def ident(name):
 
 def bad_name(nm, taken):
     return (nm in taken or nm.endswith("Params") or nm.endswith("Schema") or len(nm) > 40 or not nm[0].isupper()
-            or nm in ("Option", "Result", "Vec", "HashMap", "BTreeMap", "HashSet", "BTreeSet", "String", "Channel", "Hidden", "PlainData", "AppError"))
+            or nm in ("Option", "Result", "Vec", "HashMap", "BTreeMap", "HashSet", "BTreeSet", "String", "Hidden", "PlainData", "AppError",
+                      "AuditRecord", "AuditMeta", "Sink", "AppHandle", "WebviewWindow"))
 
 
 def overlap_names(rng, types, edges, n):
@@ -311,7 +317,7 @@ def overlap_names(rng, types, edges, n):
                     parts = [x for x in SUFFIXES + BASES + PREFIXES if x in pn and x != pn and x[0].isupper()]
                     cand = rng.choice(parts) if parts else pn + "0"
             elif r < 0.9:
-                cand = rng.choice(STD_LIKE + BASES)
+                cand = rng.choice(STD_LIKE + BASES + NAME_CLASH)
             else:
                 cand = rng.choice(BASES) + rng.choice(SUFFIXES)
             if not bad_name(cand, taken):
@@ -436,6 +442,12 @@ def random_spec(rng, clean=True, acyclic=None, max_types=8, events=True):
         helpers.append({"name": rng.choice(HELPER_NAMES), "file": rng.randrange(nfiles), "roots": roots})
     if not any(c["roots"] for c in cmds):
         cmds[0]["roots"].append(["param", 0, "direct"])
+    if rng.random() < 0.5:                            # all emit sites of the project use one event name
+        shared = rng.choice(["changed", "progress-update", "item:added"])
+        for c in cmds + helpers:
+            for r in c["roots"]:
+                if r[0] == "event" and len(r) == 3:
+                    r.append(shared)
     raw_items = []
     for t in types:                                   # attribute shapes of type items
         if t["kind"] != "tuple" and rng.random() < 0.5:
@@ -578,4 +590,47 @@ def deep_specs():
             edges = [[0, i, ctxs[i % len(ctxs)]] for i in range(1, n)]
         specs.append({"types": types, "edges": edges, "cmds": [{"name": "run_it", "file": 0, "roots": [["param", 0, "direct"]]}],
                       "helpers": [], "nfiles": 3, "alias": False, "shape": "deep-" + shape, "acyclic": True, "clean": True, "naming": "digits"})
+    return specs
+
+
+def same_event_specs():
+    """one event name emitted from three sites (command / helper / command) with three different payload types, each
+    otherwise unreachable and with a child of its own; every assignment of the sites to files and every source order"""
+    import itertools
+    specs = []
+    kinds = [("cmd", "direct"), ("helper", "ref"), ("cmd", "literal")]
+    for perm in itertools.permutations(range(3)):
+        for same_file in (False, True):
+            types = []
+            edges = []
+            for k in range(3):
+                types.append({"name": ["Started", "Progress", "Finished"][k], "kind": "struct", "derives": list(SD2), "file": (k + 1) % 3})
+                types.append({"name": ["StartInfo", "ProgressInfo", "FinishInfo"][k], "kind": "struct", "derives": list(SD2), "file": k})
+                edges.append([2 * k, 2 * k + 1, ["vec", "option", "map_value"][k]])
+            types.append({"name": "Meta", "kind": "struct", "derives": list(SD2), "file": 0})
+            cmds, helpers = [{"name": "other_cmd", "file": 0, "roots": [["param", 6, "direct"]]}], []
+            for pos, k in enumerate(perm):          # pos = source/file order of the site emitting payload type k
+                where, ctx = kinds[k]
+                fn = {"name": "site_%d_%s" % (pos, "abc"[k]), "file": 1 if same_file else pos, "roots": [["event", 2 * k, ctx, "job-status"]]}
+                (cmds if where == "cmd" else helpers).append(fn)
+            specs.append({"types": types, "edges": edges, "cmds": cmds, "helpers": helpers, "nfiles": 3, "alias": False,
+                          "shape": "same-event", "acyclic": True, "clean": True, "naming": "plain"})
+    return specs
+
+
+def name_clash_specs():
+    """project types named like std / tauri / TypeScript types, as a root (parameter or return) and as an inner node"""
+    specs = []
+    for k, nm in enumerate(NAME_CLASH):
+        # root: fn(arg: Nm) with a child; inner: Holder -> Nm -> Leaf
+        types = [{"name": nm, "kind": "struct", "derives": list(SD2), "file": k % 2},
+                 {"name": "Leaf", "kind": "struct", "derives": list(SD2), "file": 1},
+                 {"name": "Holder", "kind": "struct", "derives": list(SD2), "file": 0}]
+        ctx = CLEAN_FIELD[k % 10]
+        root = [["param", 0, ["direct", "option", "vec"][k % 3]]] if k % 2 else [["ret", 0, ["direct", "result_ok"][k % 4 // 2]]]
+        specs.append({"types": types, "edges": [[0, 1, ctx]], "cmds": [{"name": "use_it", "file": 0, "roots": root}], "helpers": [],
+                      "nfiles": 2, "alias": False, "shape": "name-root", "acyclic": True, "clean": True, "naming": "clash"})
+        specs.append({"types": types, "edges": [[2, 0, ctx], [0, 1, "direct"]],
+                      "cmds": [{"name": "use_it", "file": 1, "roots": [["param", 2, "direct"]]}], "helpers": [],
+                      "nfiles": 2, "alias": False, "shape": "name-inner", "acyclic": True, "clean": True, "naming": "clash"})
     return specs
